@@ -7,7 +7,7 @@ unset GOWORK
 out=$(mktemp /var/tmp/baseline.XXXXXX.json)
 trap 'rm -f "$out"' EXIT
 for m in . pkg/topology; do
-  (cd /repo/$m && go test -json -vet=off -count=1 -timeout 25m ./... ) >> "$out" 2>/dev/null
+  (cd ${VERIF_REPO:-/repo}/$m && go test -json -vet=off -count=1 -timeout 25m ./... ) >> "$out" 2>/dev/null
 done
 python3 - "$out" <<'PY'
 import json,sys
